@@ -872,6 +872,8 @@ def module_model(name):
         return ModuleVal('warnings', {'warn': Builtin(lambda I, *a, **k: None, 'warnings.warn')})
     if name == 'logging':
         return ModuleVal('logging', {'getLogger': Builtin(lambda I, *a, **k: None, 'logging.getLogger')})
+    if name == 'time':
+        return ModuleVal('time', {'time': Builtin(lambda I: fresh_real('time'), 'time.time')})
     if name == 'itertools':
         return ModuleVal('itertools', {})
     if name == 'math':
